@@ -2,9 +2,9 @@
 //!   c04 record <cases.ndjson> <trace.ndjson>
 //!   c04 probe <file.sy>...          (scratch helper: compile files from disk; `//// file: m.sy` splits a project)
 //! Case (emitted by MC_Purity, mode emit):
-//!   {id, part, kind, form, path, clause, base: {main: tops, mods: [{name, tops}]}, planted: {...}}
-//! Record: {id, part, kind, form, path, base: {class, kind}, planted: {class, kind}} (+ sources / first error detail
-//! for every outcome that is not base=ok, planted=err).  The verdict is TLC's (MC_Purity, mode validate).
+//!   {id: {part, kind, form, path, host}, clause, bases: [prog], planted: prog},  prog = {names: [{b, n}], main: tops, mods: [{name, tops}]}
+//! Record: {id, bases: [{class, kind}], planted: {class, kind}} (+ sources / first error detail for every outcome
+//! that is not bases=ok, planted=err).  The verdict is TLC's (MC_Purity, mode validate).
 //! C04_STUB=accept: negative control, reports every planted program of an even record index as accepted.
 
 use serde_json::{json, Value};
@@ -15,7 +15,13 @@ use vharness::util::*;
 use vharness::{CompileResult, Project};
 
 fn render(prog: &Value) -> Project {
-    let opts = PrintOpts::default();
+    // the specification names the binders whose text matters (`names`: [{b, n}])
+    let mut opts = PrintOpts::default();
+    if let Some(ns) = prog["names"].as_array() {
+        for n in ns {
+            opts.naming.insert(n["b"].as_i64().unwrap(), n["n"].as_str().unwrap().to_string());
+        }
+    }
     let mut files = BTreeMap::new();
     files.insert("main.sy".to_string(), print_program(prog["main"].as_array().unwrap(), &opts));
     if let Some(mods) = prog["mods"].as_array() {
@@ -71,19 +77,20 @@ fn main() {
     let cases: Vec<Value> = read_ndjson(Path::new(&args[2]));
     let stub = std::env::var("C04_STUB").ok().as_deref() == Some("accept");
     let recs = vharness::pool::par_map(&cases, |i, c| {
-        let bp = render(&c["base"]);
+        let bps: Vec<Project> = c["bases"].as_array().unwrap().iter().map(render).collect();
         let pp = render(&c["planted"]);
-        let (bo, bd) = outcome(&bp);
+        let bos: Vec<(Value, String)> = bps.iter().map(outcome).collect();
         let (mut po, pd) = outcome(&pp);
         if stub && i % 2 == 0 {
             po = json!({"class": "ok", "kind": "-"});
         }
-        let mut r = json!({"id": c["id"], "part": c["part"], "kind": c["kind"], "form": c["form"], "path": c["path"],
-                           "base": bo, "planted": po});
-        if r["base"]["class"] != "ok" || r["planted"]["class"] != "err" {
-            r["base_detail"] = json!(bd);
+        let bases: Vec<Value> = bos.iter().map(|(o, _)| o.clone()).collect();
+        let all_ok = bases.iter().all(|b| b["class"] == "ok");
+        let mut r = json!({"id": c["id"], "bases": bases, "planted": po});
+        if !all_ok || r["planted"]["class"] != "err" || i < 3 {
+            r["bases_detail"] = json!(bos.iter().map(|(_, d)| d.clone()).collect::<Vec<_>>());
             r["planted_detail"] = json!(pd);
-            r["base_src"] = json!(bp.files);
+            r["bases_src"] = json!(bps.iter().map(|p| p.files.clone()).collect::<Vec<_>>());
             r["planted_src"] = json!(pp.files);
         }
         r
